@@ -3,18 +3,18 @@
 # /repo with that change applied (never /repo itself) and report caught / MISSED.  Patches that no longer apply
 # (the library was repaired in the meantime at that spot) are reported as such.
 # usage: tools/reeval_seeded.sh [ids...]      (default: every directory under seeded/)
-cd /verif
+cd "$(dirname "$0")/.."; V=$(pwd)
 ids="$@"; [ -z "$ids" ] && ids=$(ls seeded | grep -v INDEX)
 for id in $ids; do
   prop=$(python3 -c "import json;print(json.load(open('seeded/$id/meta.json'))['property'])")
   S=/dev/shm/mutre/$id; rm -rf $S; mkdir -p $S
   cp -r /repo $S/repo; rm -rf $S/repo/.git
-  if ! ( cd $S/repo && patch -p1 -s --no-backup-if-mismatch < /verif/seeded/$id/patch.diff ) > $S/patch.log 2>&1; then
+  if ! ( cd $S/repo && patch -p1 -s --no-backup-if-mismatch < $V/seeded/$id/patch.diff ) > $S/patch.log 2>&1; then
     echo "$id $prop PATCH-DOES-NOT-APPLY"; rm -rf $S; continue
   fi
   out=$(VERIF_MAX_REPLAYS=3 ./check $prop --repo $S/repo --no-evidence --tier quick 2>&1)
   cls=$(echo "$out" | grep "^  class=" | sort | uniq -c | sort -rn | head -3 | sed 's/^ *//' | tr '\n' ';' | cut -c1-300)
   if echo "$out" | grep -q "^VIOLATION property=$prop"; then echo "$id $prop caught: $cls"; else echo "$id $prop MISSED: $(echo "$out" | tail -1 | cut -c1-200)"; fi
-  rm -rf $S /verif/replays
+  rm -rf $S $V/replays
 done
 rmdir /dev/shm/mutre 2>/dev/null
